@@ -159,7 +159,11 @@ func suiteNode(c *Ctx) {
 			net.stabilise()
 		}
 		c.Class(fmt.Sprintf("scenario/byzantine/n%d/b%d", n, len(byz)))
-	}
+	}	// round 5: directed scenarios after the pseudo-random phases (their streams stay as they were)
+	scenarioNewViewSweepNoLock(c)
+	c.Class("scenario/newview-sweep-no-lock")
+	scenarioMinorityPreparedOverridden(c)
+	c.Class("scenario/minority-prepared-overridden")
 }
 
 // schemeFor: every fifth scenario uses long ids with a common three-byte prefix, every seventh ids
@@ -710,6 +714,12 @@ func scenarioNewViewMutationSweep(c *Ctx) *Net {
 	send("pp-type", genuine(), a.ppContent(byz, protocol.LEAN_HELIX_PREPARE, inst, h, nv, hash), blk)
 	send("pp-by-outsider", genuine(), a.ppContent(a.outsiders[0], protocol.LEAN_HELIX_PREPREPARE, inst, h, nv, hash), blk)
 	send("no-block", genuine(), goodPP(), nil)
+	{
+		// the lock is there (a genuine proof among the votes) but the embedded proposal names ANOTHER hash: without a block, and with that hash's own block
+		bad := a.newBlock(h, false)
+		send("no-block-other-hash", genuine(), a.ppContent(byz, protocol.LEAN_HELIX_PREPREPARE, inst, h, nv, blockHash(bad)), nil)
+		send("other-hash-its-block", genuine(), a.ppContent(byz, protocol.LEAN_HELIX_PREPREPARE, inst, h, nv, blockHash(bad)), bad)
+	}
 	a.toAll(a.mkNV(byz, protocol.LEAN_HELIX_VIEW_CHANGE, inst, h, nv, genuine(), goodPP(), blk), "sweep-nv-header-type")
 	a.toAll(a.mkNV(a.outsiders[0], protocol.LEAN_HELIX_NEW_VIEW, inst, h, nv, genuine(), goodPP(), blk), "sweep-nv-sender-not-leader")
 	send("genuine", genuine(), goodPP(), blk)
